@@ -163,6 +163,12 @@ def main(argv=None):
             mod.static_obligations(res)
     except Exception as e:
         res.errors.append('obligation generation crashed: %s\n%s' % (e, traceback.format_exc()[-1500:]))
+    for file, qual in getattr(mod, 'ENGINE_B_FUNCTIONS', []):
+        try:
+            fi = extract.get_func(file, qual)
+            res.functions.append(dict(file=file, qualname=qual, lines=list(fi.lines), sha256=fi.sha256, dropped=fi.dropped, engine='B (AST -> sympy term)'))
+        except Exception as e:
+            res.errors.append('%s::%s not found: %s' % (file, qual, e))
     # 2. discharge
     both = (tier == 'thorough')
     try: solve.discharge_all(res.obls, both=both, jobs=12)      # static obligations arrive decided
